@@ -33,7 +33,7 @@ var props = map[string]Prop{
 			{Name: "exhaustive", Test: "TestC09Exhaustive", Shards: [2]int{4, 16}, Timeout: [2]time.Duration{5 * min, 20 * min}},
 			{Name: "random", Test: "TestC09Random", Shards: [2]int{2, 16}, Checks: [2]int{15000, 600000}, SeedOffset: 1, Timeout: [2]time.Duration{5 * min, 20 * min}},
 		},
-		Rule: "exhaustive: every string of length <= 4 (quick) / <= 5 (thorough) over a 27-symbol representative alphabet and over a complementary 25-symbol alphabet (E, X, f, remaining operators and brackets, TAB, CR, space, runes of 2-4 bytes, a truncated rune, a stray 0xA0 byte), each visited once; random: rapid-generated strings up to 64 bytes built from lexeme fragments, arbitrary bytes and runes. Oracle: partition laws, differential against an independent reference tokenizer (kinds, spans, values, numbers as exact rationals), re-scan idempotence, numeric accessors. Non-trivial = the string contains a multi-character lexeme or drives the scanner through a look-ahead state (after 0, 0x, '.', exponent, backslash, '/', '=', '!', '<', '>', inside quotes) with at least one following character; distinct = distinct strings (exhaustive part distinct by construction, random part by hash).",
+		Rule: "exhaustive: every string of length <= 4 (quick) / <= 5 (thorough) over a 27-symbol representative alphabet and over a complementary 26-symbol alphabet (E, X, f, remaining operators and brackets, TAB, CR, space, runes of 2-4 bytes, U+FFFD, a truncated rune, a stray 0xA0 byte), each visited once; random: rapid-generated strings up to 64 bytes built from lexeme fragments, arbitrary bytes and runes. Oracle: partition laws, differential against an independent reference tokenizer (kinds, spans, values, numbers as exact rationals), re-scan idempotence, numeric accessors. Non-trivial = the string contains a multi-character lexeme or drives the scanner through a look-ahead state (after 0, 0x, '.', exponent, backslash, '/', '=', '!', '<', '>', inside quotes) with at least one following character; distinct = distinct strings (exhaustive part distinct by construction, random part by hash).",
 		Assumptions: []string{
 			"the reference tokenizer (harness/reftok) is a faithful transcription of the C09 statement and the TokenKind documentation",
 			"unicode.IsSpace is the definition of white space",
@@ -45,7 +45,7 @@ var props = map[string]Prop{
 			{Name: "exhaustive", Test: "TestC15Exhaustive", Shards: [2]int{4, 16}, Timeout: [2]time.Duration{5 * min, 30 * min}},
 			{Name: "random", Test: "TestC15Random", Shards: [2]int{2, 16}, Checks: [2]int{8000, 300000}, SeedOffset: 1, Timeout: [2]time.Duration{5 * min, 20 * min}},
 		},
-		Rule: "exhaustive: every string of length <= 4 (quick) / <= 5 (thorough) over the 27-symbol alphabet and over the complementary 25-symbol alphabet (the first contains ';', all three quotes, '/', '!', newline); random: rapid-generated concatenations of statement fragments, semicolons, unterminated tokens and look-ahead lexemes. Oracle: join(pieces, ';') == source; #pieces == #semicolon tokens + 1; each piece is the text between consecutive semicolon tokens; Scan(piece) has no semicolon token and equals the context tokens shifted by the piece offset; Parse(source) succeeds iff every non-empty piece parses, and then statement k equals Parse(piece k) up to the span shift. Non-trivial = at least one semicolon token and (a semicolon byte that is not a token, or a semicolon directly after a look-ahead character); distinct = distinct strings.",
+		Rule: "exhaustive: every string of length <= 4 (quick) / <= 5 (thorough) over the 27-symbol alphabet and over the complementary 26-symbol alphabet (the first contains ';', all three quotes, '/', '!', newline); random: rapid-generated concatenations of statement fragments, semicolons, unterminated tokens and look-ahead lexemes. Oracle: join(pieces, ';') == source; #pieces == #semicolon tokens + 1; each piece is the text between consecutive semicolon tokens; Scan(piece) has no semicolon token and equals the context tokens shifted by the piece offset; Parse(source) succeeds iff every non-empty piece parses, and then statement k equals Parse(piece k) up to the span shift. Non-trivial = at least one semicolon token and (a semicolon byte that is not a token, or a semicolon directly after a look-ahead character); distinct = distinct strings.",
 		Assumptions: []string{"reflective structural comparison over the exported AST fields defines 'the same statement'"},
 	},
 	"C07": {
